@@ -2,13 +2,13 @@
 import os
 from tools.py2lean import gen_c12
 
-LEAN_TARGETS = ["EasyFEAVerif.Props.C12", "EasyFEAVerif.Props.C12Typing"]
-PROPS_MODULES = ["EasyFEAVerif.Props.C12", "EasyFEAVerif.Props.C12Typing"]
+LEAN_TARGETS = ["EasyFEAVerif.Props.C12", "EasyFEAVerif.Props.C12Typing", "EasyFEAVerif.Props.C12Align"]
+PROPS_MODULES = ["EasyFEAVerif.Props.C12", "EasyFEAVerif.Props.C12Typing", "EasyFEAVerif.Props.C12Align"]
 TRUSTED_EXTRA = [
-    "C12: numpy broadcasting, einsum and the ndarray subclass protocols are external; the alignment/dispatch logic of FeArray is validated against explicit (e, p) loops on every run, not proved",
+    "C12: numpy broadcasting, einsum and the ndarray subclass protocols are external: broadcasting is modelled at the level of indices from numpy's documentation (Props/C12Align.lean: trailing alignment, an axis of size 1 is read at 0); the padding done by FeArray._align and the typing rule of FeArray.__wrap are pinned statement by statement (Gen/C12/Align.lean) and proved about on that model; the dispatch through __array_ufunc__ / __array_function__ is validated against explicit (e, p) loops on every run, not proved",
 ]
 ASSUMPTIONS = [
-    "theorems cover the closed-form Det/Inv/Trace formulas, the einsum subscripts of dot/ddot/TensorProd and the axis rule of reductions and the decision list of broadcast() (translated: which leading shape is read as a constant / per element / per point / full field); that numpy's broadcast_to then reads the values that way, alignment (_align) and __wrap typing are checked by the harness only",
+    "theorems cover the closed-form Det/Inv/Trace formulas, the einsum subscripts of dot/ddot/TensorProd and the axis rule of reductions and the decision list of broadcast() (translated: which leading shape is read as a constant / per element / per point / full field); element-wise alignment (_align: a padded field is read at its own point, a plain array never sees the point, for all sizes) and the typing rule of __wrap (exact without coincidence, wrong for axis-moving functions when Ne = nPg: known finding); that numpy's broadcast_to reads the values as modelled is checked by the harness only",
 ]
 
 
